@@ -99,7 +99,8 @@ def gen_cases(ctx):
                 if not grp: continue
                 ts, cs = rng.choice(grp)
                 g = {"kind": kind, "params": rand_params(rng, kind), "ts": list(ts), "cs": list(cs)}
-                for style, x in (("tiny", [float2bits(1.0), float2bits(0.0)]), ("generic", [float2bits(1e-9), float2bits(-2e-9)]), ("mixed", [float2bits(0.0), float2bits(1e-12)])):
+                for style, x in (("tiny", [float2bits(1.0), float2bits(0.0)]), ("generic", [float2bits(1e-9), float2bits(-2e-9)]), ("mixed", [float2bits(0.0), float2bits(1e-12)]),
+                                 ("spike", [float2bits(0.3), float2bits(-1.7)]), ("spike", [float2bits(1.0), float2bits(0.0)])):      # a basis state carrying a phase and a scale
                     cases.append({"op": "opseq", "n": n, "gates": [g], "a": rand_vec(rng, n, style), "b": rand_vec(rng, n, "generic"),
                                   "x": x, "y": [float2bits(0.0), float2bits(0.0)], "thr": rng.choice([10, 1]), "rt": False})
     # ... and at the parameter values where a gate degenerates into a simpler one (theta = 0: a pure phase; phi = 0: a plain rotation;
